@@ -83,7 +83,10 @@ type Step struct {
 type History struct {
 	Fund   []int64 `json:"fund"`   // initial stake of the two creators
 	Prices []int64 `json:"prices"` // price per provider (len = number of providers)
-	Steps  []Step
+	// Names: how the feed indices are spelled. 0: feed0 / feed1; 1: eth / ethusd; 2: ab / a; 3: btc-usd / btc
+	// (one name a proper PREFIX of the other: their store keys must still be kept apart)
+	Names int `json:"names,omitempty"`
+	Steps []Step
 }
 
 const (
@@ -95,7 +98,17 @@ const (
 
 var fieldNames = []string{"price", "last", "high", "d.x"}
 
-func feedName(i int) string { return fmt.Sprintf("feed%d", i) }
+// nameMode is History.Names of the history being executed (one history at a time per process).
+var nameMode int
+
+var prefixNames = [][2]string{{"feed0", "feed1"}, {"eth", "ethusd"}, {"ab", "a"}, {"btc-usd", "btc"}}
+
+func feedName(i int) string {
+	if i >= 0 && i < 2 && nameMode > 0 && nameMode < len(prefixNames) {
+		return prefixNames[nameMode][i]
+	}
+	return fmt.Sprintf("feed%d", i)
+}
 
 // ---------------------------------------------------------------- generator
 
@@ -199,6 +212,9 @@ func gen(r *lib.Rand, tier, stream string, idx int) History {
 			h.Fund = append(h.Fund, 1000000)
 		}
 	}
+	if r.Chance(1, 3) {
+		h.Names = 1 + r.Intn(3)
+	}
 	n := 40 + r.Intn(60)
 	if tier == "thorough" {
 		n = 25 + r.Intn(120)
@@ -262,7 +278,8 @@ func gen(r *lib.Rand, tier, stream string, idx int) History {
 	}
 	for len(h.Steps) < n {
 		f := 0
-		if r.Chance(1, 4) {
+		if r.Chance(1, 4) || (h.Names > 0 && r.Chance(1, 3)) {
+			// with prefix names both feeds are driven about equally: each must hold values
 			f = 1
 		}
 		fs := &fst[f]
@@ -1088,6 +1105,12 @@ func (rn *runner) exec() lib.Case {
 			rn.c.NonTrivial = true
 		}
 	}
+	if rn.h.Names > 0 {
+		lib.Stat(rn.stats, "names:prefix-pair")
+		if rn.done[0] > 0 && rn.done[1] > 0 {
+			lib.Stat(rn.stats, "names:prefix-pair-both-valued")
+		}
+	}
 	return rn.c
 }
 
@@ -1189,6 +1212,7 @@ func dataZ(s string, c *lib.Case) string {
 }
 
 func exec(h History) lib.Case {
+	nameMode = h.Names
 	if len(h.Prices) == 0 || len(h.Prices) > maxProv || len(h.Fund) != nCreators {
 		return lib.Case{Coq: "[]", Stats: map[string]int{"bad-history": 1}}
 	}
